@@ -502,6 +502,10 @@ impl GraphStore {
         r is Err ==> final(self).outgoing@ == old(self).outgoing@ && final(self).incoming@ == old(self).incoming@
             && final(self).edge_endpoints@ == old(self).edge_endpoints@,                                   //#refused_changes_nothing
         final(self).frozen_outgoing == old(self).frozen_outgoing && final(self).frozen_incoming == old(self).frozen_incoming,   //#frozen_tier_untouched
+        r matches Ok(ed) ==> (final(self).edge_type_index@.contains_key(ed.edge_type) ==> !final(self).edge_type_index@[ed.edge_type]@.contains(id)),   //#no_longer_listed_under_its_type
+        r matches Ok(ed) ==> forall|t: EdgeType| t != ed.edge_type ==> (#[trigger] final(self).edge_type_index@.contains_key(t)) == old(self).edge_type_index@.contains_key(t)
+            && (old(self).edge_type_index@.contains_key(t) ==> final(self).edge_type_index@[t] == old(self).edge_type_index@[t]),   //#other_types_index_untouched
+        r is Err ==> final(self).edge_type_index@ == old(self).edge_type_index@,   //#refused_leaves_the_type_index
 //@replace "self.get_node(edge.source).map(|n| n.labels.iter().cloned().collect()).unwrap_or_default()" => "self.labels_of(edge.source)" :: catalog bookkeeping outside the projected state (D4): stub
 //@replace "self.get_node(edge.target).map(|n| n.labels.iter().cloned().collect()).unwrap_or_default()" => "self.labels_of(edge.target)" :: as above
 //@replace "self.outgoing.get_mut(" => "vec_get_mut(&mut self.outgoing, " :: slice::get_mut has no final-value specification in vstd; wrapper body is the original expression
